@@ -588,6 +588,9 @@ class History:
         self.corr("init", "ok", r)
         if self.model_on:
             self.corr("cfg", "ok", drv.ask("cfg %d -" % cfg["version"]))
+        if self.model_on:
+            # performSpatiallyAdaptiv has evaluated once: cursor effect of evaluate_operation (clear_new_objects)
+            self.corr("eval", "ok", drv.ask("eval"))
         self.compare_state(impl, "@init")
         self.oracle_state(impl)
         k = 0
@@ -651,6 +654,9 @@ class History:
             except Exception as e:
                 self.viol("evaluate-exception", {"exception": repr(e)[:300], "step": k}, {"exception": type(e).__name__})
                 break
+            if self.model_on:
+                self.corr("eval", "ok", drv.ask("eval"))
+                self.corr("cursors@evaluated-%d" % k, impl.cursors_str(), drv.ask("cursors"))
             if final:
                 self.points_checks(impl, "@end")
         return self.ok
